@@ -60,6 +60,15 @@ DEFS = [
     struct("SRename", [field("a", U8, rename="x"), field("b", BOOL, rename="a"), field("long_name", I8, rename="long_name2")]),
     struct("SRenameCamel", [field("my_a", U8, rename="my_a"), field("my_b", BOOL)], rename_all="camelCase"),
     struct("SDeny", [field("a", U8), field("b", ("opt", BOOL))], deny="default"),
+    # identifiers with digits and acronyms (word boundaries of camelCase), non-ASCII identifiers (Unicode lower-casing)
+    struct("SDigits", [field("sha256sum", U8), field("ipv4_addr", BOOL), field("field1", I8), field("x2y", U8, default="trait"), field("HTTPServer", U8, default="trait")],
+           rename_all="camelCase", deny="default"),
+    struct("SDigitsLower", [field("Sha256Sum", U8), field("B2B", BOOL)], rename_all="lowercase"),
+    enum("EUnitUnicode", [variant("École"), variant("plain"), variant("Übermarkt"), variant("Ärger", rename="zorn")], rename_all="lowercase"),
+    enum("ETagUnicode", [variant("Étoile", [field("näme", U8)]), variant("Øre")], tag="t", rename_all="lowercase"),
+    # more than 20 members with a skipped one early: the accepted-keys list must still be in declaration order
+    struct("SBig", [field("f01", U8, default="trait"), field("f02", U8, skip=True), field("f03", U8, default="trait")] +
+                   [field("f%02d" % i, U8, default="trait") for i in range(4, 23)] + [field("required_one", BOOL)], deny="default"),
     struct("SRenameMore", [field("a", U8, rename="alpha", default="trait"), field("b_b", BOOL, rename="beta", default=("expr", "true", rv("bool", b=True))),
                            field("c_c", I8)], rename_all="camelCase", deny="default"),
     struct("SDefault", [field("a", U8), field("b", U8, default="trait"), field("c", U8, default=("expr", "7", num_rv(7))),
@@ -108,6 +117,7 @@ DEFS = [
     struct("FAll", [field("a", U8, frm={"kind": "try", "ty": U8, "ref": False}, mapfn=False), field("b", U8, mapfn=True, default=("expr", "3", num_rv(3))),
                     field("c", STR, missing_fn=True)], error="RecErr", deny="fn", validate=True),
     struct("CFrom", [], error="RecErr", cfrom={"kind": "from", "ty": ("vec", U8), "ref": False}),
+    struct("CFromV", [], error="RecErr", cfrom={"kind": "from", "ty": U8, "ref": True}, validate=True),
     struct("CTry", [], error="RecErr", cfrom={"kind": "try", "ty": U8, "ref": True}, validate=True),
     enum("EValidate", [variant("A"), variant("B", [field("x", U8)])], tag="t", error="RecErr", validate=True),
     enum("EUnitValidate", [variant("A"), variant("B")], error="RecErr", validate=True),
@@ -134,7 +144,7 @@ ENTRIES = [
     ("opt", ("vec", U8)), ("box", ("vec", ("box", U8))),
     ("phantom",),
     ("ref", "SPlain"), ("ref", "SThree"), ("ref", "SCamel"), ("ref", "SLower"), ("ref", "SRename"), ("ref", "SRenameCamel"),
-    ("ref", "SDeny"), ("ref", "SRenameMore"), ("ref", "SDefault"), ("ref", "SSkipMid"), ("ref", "SSkipFirst"), ("ref", "SSkipLast"), ("ref", "SSkipDefault"),
+    ("ref", "SDeny"), ("ref", "SDigits"), ("ref", "SDigitsLower"), ("ref", "EUnitUnicode"), ("ref", "ETagUnicode"), ("ref", "SBig"), ("ref", "SRenameMore"), ("ref", "SDefault"), ("ref", "SSkipMid"), ("ref", "SSkipFirst"), ("ref", "SSkipLast"), ("ref", "SSkipDefault"),
     ("ref", "SMix"), ("ref", "SEmpty"), ("ref", "SEmptyLoose"), ("ref", "SRaw"), ("ref", "SNested"), ("ref", "SOpt"),
     ("ref", "EUnit"), ("ref", "EUnitLower"), ("ref", "EUnitCamel"), ("ref", "ETag"), ("ref", "ETagCamel"), ("ref", "ETagDeny"),
     ("ref", "ETagCollide"), ("ref", "ETagRaw"), ("ref", "EOne"), ("ref", "SWithEnums"),
@@ -148,5 +158,5 @@ ENTRIES = [
     ("vec", ("cs", "String")), ("hset", ("opt", U8)),
     ("ref", "FFrom"), ("ref", "FTry"), ("ref", "FTryF"), ("ref", "FMap"), ("ref", "FValidate"), ("ref", "FMissing"), ("ref", "FDenyFn"), ("ref", "FAll"),
     ("ref", "GTry"), ("ref", "GEnum"), ("ref", "GCTry"), ("vec", ("ref", "GTry")),
-    ("ref", "CFrom"), ("ref", "CTry"), ("ref", "EValidate"), ("ref", "EUnitValidate"), ("ref", "FNest"), ("vec", ("ref", "FTry")),
+    ("ref", "CFrom"), ("ref", "CFromV"), ("ref", "CTry"), ("ref", "EValidate"), ("ref", "EUnitValidate"), ("ref", "FNest"), ("vec", ("ref", "FTry")),
 ]
